@@ -353,7 +353,7 @@ static Boolean DecodeRegDisp(tStrComp* pComp, LongWord* Erg) {
     Boolean  OK;
     tStrComp DispArg, RegArg;
 
-    if (pComp->str.p_str[l - 1] != ')') {
+    if ((l < 1) || (pComp->str.p_str[l - 1] != ')')) {
         WrStrErrorPos(ErrNum_InvAddrMode, pComp);
         return False;
     }
